@@ -426,6 +426,7 @@ func (l Layout) wtListFilled() wt.ArchiveInfoList {
 
 // cliRunner executes commands as actors of one scheduler.
 type cliRunner struct {
+	first       *cmdResult // result of the first command this runner executed
 	expectAbort bool // the run injects a process death: an aborted command is expected
 	e           *Env
 	s           *Sched
@@ -534,6 +535,9 @@ func (r *cliRunner) run(cmds []Cmd, tags []string) []*cmdResult {
 		if res[i].aborted && !r.expectAbort {
 			r.e.Skip("command-did-not-terminate")
 		}
+	}
+	if r.first == nil && len(res) > 0 {
+		r.first = res[0]
 	}
 	for i := range cmds {
 		if tout := textOutPath(r.e, cmds[i], tags[i]); tout != "" && tout != "-" && tout != "/dev/full" {
